@@ -12,7 +12,7 @@ pub fn prop() -> Prop {
     Prop {
         id: "C08",
         level: "exploration",
-        rule: "(1) all token strings of length <= 3 over the full vocabulary (keywords, operators, delimiters, identifier spellings that embed/prefix/suffix keywords, numbers, strings) rendered with every per-gap separator choice from {nothing where maximal munch allows, space, newline, line comment}: the token stream must be the concatenation of the tokens of the pieces, every piece one token spanning exactly its text, keywords not identifiers, lexeme kept; (2) all strings of length <= 3 over {a, é, _, 1, 0, .} against a reference maximal-munch lexer; (3) all string contents of length <= 4 over 8 characters encoded with the documented escapes: the parsed String node must equal the content; all raw literal bodies of length <= 4 over {a, quote, backslash, n} followed by more input: the literal ends at the first unescaped quote and decodes as the reference decoder says; (3d) character sweep: every printable ASCII character, tab / newline / carriage return and 24 Unicode representatives (letters of several scripts and widths, digits, white space, combining mark, format characters, symbols), singly and in every ordered pair, inside / at the start / at the end of a word, raw and after a backslash in a string literal, inside / at the end of a comment, and between tokens (illegal characters must be refused); (3f) escape sequences of other languages (a backslash before every ASCII letter and digit with 26 continuations: hex digits incl. surrogates, braces, octal): only the four documented escapes exist; (3e) runs of 1..6 backslashes followed by a quote, the end of the literal or more text, starting at every offset 0..40 (escaped and raw forms), and pairs of special characters adjacent or one apart at every position of literals up to 130 characters; (3c) token-length ladder: one identifier / digit run / fraction / string literal / comment / white-space run of every length around each power of two up to 1025 (8193 thorough), with one escape or wide character at every position near a multiple of 8 and at both ends; (4) nothing is dropped: a text with an illegal character, an unterminated string or a lone & or | is rejected by parse, and between consecutive token spans only white space and comments occur. Non-trivial = more than one token or a literal with an escape; distinct = distinct texts",
+        rule: "(1) all token strings of length <= 3 over the full vocabulary (keywords, operators, delimiters, identifier spellings that embed/prefix/suffix keywords, numbers, strings) rendered with every per-gap separator choice from {nothing where maximal munch allows, space, newline, line comment}: the token stream must be the concatenation of the tokens of the pieces, every piece one token spanning exactly its text, keywords not identifiers, lexeme kept; (2) all strings of length <= 3 over {a, é, _, 1, 0, .} against a reference maximal-munch lexer; (3) all string contents of length <= 4 over 8 characters encoded with the documented escapes: the parsed String node must equal the content; all raw literal bodies of length <= 4 over {a, quote, backslash, n} followed by more input: the literal ends at the first unescaped quote and decodes as the reference decoder says; (3d) character sweep: every printable ASCII character, tab / newline / carriage return and 24 Unicode representatives (letters of several scripts and widths, digits, white space, combining mark, format characters, symbols), singly and in every ordered pair, inside / at the start / at the end of a word, raw and after a backslash in a string literal, inside / at the end of a comment, and between tokens (illegal characters must be refused); (3g) two literals next to each other (every ordered pair of 24 string contents, and strings next to numbers / names / keyword literals), separated by white space, a comma or a comment; (3f) escape sequences of other languages (a backslash before every ASCII letter and digit with 26 continuations: hex digits incl. surrogates, braces, octal): only the four documented escapes exist; (3e) runs of 1..6 backslashes followed by a quote, the end of the literal or more text, starting at every offset 0..40 (escaped and raw forms), and pairs of special characters adjacent or one apart at every position of literals up to 130 characters; (3c) token-length ladder: one identifier / digit run / fraction / string literal / comment / white-space run of every length around each power of two up to 1025 (8193 thorough), with one escape or wide character at every position near a multiple of 8 and at both ends; (4) nothing is dropped: a text with an illegal character, an unterminated string or a lone & or | is rejected by parse, and between consecutive token spans only white space and comments occur. Non-trivial = more than one token or a literal with an escape; distinct = distinct texts",
         assumptions: &[
             "token kinds are compared through their Debug rendering, learnt from single-token inputs (no kind name is hard-coded); the documented token shapes are those of printer::may_touch and the reference lexer in this file",
         ],
@@ -543,9 +543,77 @@ fn foreign_escapes(sh: &mut Shard) {
     }
 }
 
+/// Two literals next to each other (the comma between array elements and arguments is optional): every ordered
+/// pair of 24 string contents (with and without each escape, empty, wide) and of strings with numbers and names,
+/// separated by nothing but white space, a comma, or a comment. What one literal needed must not leak into the next.
+fn adjacent_literals(sh: &mut Shard) {
+    let contents = [
+        "", "a", "twee", "een\n", "\ttab", "q\"q", "b\\", "\\", "\"", "é", "😀x", "a\\n", "{}", " ", "x y", "\n\n", "a\"b\\c", "\\\"", "lang genoeg om niet klein te zijn", "n", "\\n", "t\t", "//geen commentaar", "\"\"",
+    ];
+    for c1 in contents {
+        for c2 in contents {
+            for sep in [" ", " , ", "\n", " // c\n"] {
+                if !sh.mine() {
+                    continue;
+                }
+                let text = format!("[ {}{sep}{} ]", escape_string(c1), escape_string(c2));
+                let t = text.clone();
+                sh.begin(&|| t.clone());
+                sh.count("family:adjacent-literals");
+                sh.nontrivial(&text);
+                let want = vec![Stmt::Expr(Expr::Array { values: vec![Expr::String { value: c1.to_string() }, Expr::String { value: c2.to_string() }] })];
+                match parse_guarded(&text) {
+                    Parsed::Ok(ast) if ast == want => {}
+                    Parsed::Ok(ast) => fail(sh, "adjacent-literals", &text, format!("the parser returned {ast:?}")),
+                    Parsed::Err(e) => fail(sh, "adjacent-literals", &text, format!("rejected: {e}")),
+                    Parsed::Panic(p) => fail(sh, "adjacent-literals", &text, format!("panic: {p}")),
+                }
+            }
+        }
+        // a string next to a number, a float, a name, a keyword literal, another array
+        for (other_text, other) in [
+            ("7", Expr::Int { value: 7 }),
+            ("1.5", Expr::Float { value: 1.5 }),
+            ("naam", Expr::Identifier("naam".into())),
+            ("ja", Expr::Bool { value: true }),
+            ("[ ]", Expr::Array { values: vec![] }),
+        ] {
+            for (a, b, wa, wb) in [
+                (escape_string(c1), other_text.to_string(), Expr::String { value: c1.to_string() }, other.clone()),
+                (other_text.to_string(), escape_string(c1), other.clone(), Expr::String { value: c1.to_string() }),
+            ] {
+                if !sh.mine() {
+                    continue;
+                }
+                let text = format!("f ( {a} {b} )");
+                let t = text.clone();
+                sh.begin(&|| t.clone());
+                sh.count("family:adjacent-literals");
+                let want = vec![Stmt::Expr(Expr::Call { left: Box::new(Expr::Identifier("f".into())), arguments: vec![wa, wb] })];
+                match parse_guarded(&text) {
+                    Parsed::Ok(ast) if ast == want => {}
+                    // `naam [ ]` and `"s" [ ]` are index expressions, `[ ] "s"`... only flag what must be two arguments
+                    Parsed::Ok(ast) => {
+                        if !(b == "[ ]") {
+                            fail(sh, "adjacent-literals", &text, format!("the parser returned {ast:?}"))
+                        }
+                    }
+                    Parsed::Err(e) => {
+                        if !(b == "[ ]") {
+                            fail(sh, "adjacent-literals", &text, format!("rejected: {e}"))
+                        }
+                    }
+                    Parsed::Panic(p) => fail(sh, "adjacent-literals", &text, format!("panic: {p}")),
+                }
+            }
+        }
+    }
+}
+
 fn run(sh: &mut Shard) {
     let tier = sh.cfg.tier;
     length_ladder(sh);
+    adjacent_literals(sh);
     foreign_escapes(sh);
     backslash_runs(sh);
     char_sweep(sh);
@@ -845,7 +913,7 @@ fn replay(sh: &mut Shard, case: &Value) {
 }
 
 fn vacuity(m: &Merged) -> Option<String> {
-    for fam in ["sequences", "words", "length-ladder", "backslash-runs", "foreign-escapes", "char-sweep", "string-contents", "raw-bodies", "illegal", "spans"] {
+    for fam in ["sequences", "words", "length-ladder", "adjacent-literals", "backslash-runs", "foreign-escapes", "char-sweep", "string-contents", "raw-bodies", "illegal", "spans"] {
         if m.counters.get(&format!("family:{fam}")).copied().unwrap_or(0) == 0 {
             return Some(format!("family {fam} produced no case"));
         }
